@@ -68,15 +68,19 @@ def replay(ctx, payload):
 
 MANIFEST = dict(
     level_text="Lean 4 theorems about an executable model of every pass of Model._simplify_once and of the loop of simplify "
-               "(expression trees over an arbitrary field): substitution lemma, soundness of every pass and of the whole "
-               "pipeline for all option sets and iteration counts (every original solution solves the simplified model; recorded "
-               "constants and alias signs hold), exactness (no solution lost or invented) of the individual passes under the "
-               "preconditions the property names; tied to the real code on every run by a pass-by-pass differential "
-               "correspondence on the serialised real MX and by a direct solution/rank oracle on generated models with a "
-               "constructed unique solution.",
+               "(expression trees over an arbitrary field): substitution lemma; soundness of every pass and of the whole pipeline for "
+               "all option sets and iteration counts (every original solution solves the simplified model; recorded constants and "
+               "alias signs hold); completeness of every pass (a solution of the result extends to a solution of the input that "
+               "differs only on the removed names) including the substitution fixpoints (every round commutes with the original "
+               "bindings) and the alias detection (from the invariant of AliasRelation that `_make_alias` preserves), composed over "
+               "the pass list; under the preconditions the property names (non-zero constant factors, equations that determine the "
+               "aliased symbol). Tied to the real code on every run by a pass-by-pass differential correspondence on the serialised "
+               "real MX and by a direct solution/rank oracle on generated models with a constructed unique solution.",
     level_note="Trusted: Lean kernel + standard axioms; the harness; CasADi's rewriting and is_zero are observed, not modelled "
-               "(theorems hold for every value-preserving engine); vector expansion, the SX round trip and the affine collapse are "
-               "checked by the direct oracle only.",
-    technique="Lean 4 proof (induction over passes/iterations, refinement of substitution) + pass-by-pass model/implementation correspondence + direct solution oracle",
+               "(theorems hold for every value-preserving engine). Completeness of a later alias pass under iterative_simplification "
+               "(non-empty alias relation), vector expansion, the SX round trip and the affine collapse are covered by the "
+               "correspondence / direct oracle only.",
+    technique="Lean 4 proof (induction over passes/iterations, substitution refinement, union-find invariant) + pass-by-pass "
+              "model/implementation correspondence + direct solution oracle",
 )
 READY = True
